@@ -89,7 +89,7 @@ def run(tier):
             w = ic.wrap(P, ic.prog_id(P, [label, str(pre)]), pre)
             wrapped.append(w)
             labels[w["id"]] = label
-    wrapped = ic.cap(wrapped, int(os.environ.get("VERIF_THOROUGH_CAP", "100000")))
+    wrapped = ic.cap(wrapped, int(os.environ.get("VERIF_THOROUGH_CAP", "40000")))
     preds, mstats = ic.predict(wrapped)
     fronts = ("c", "file", "stdin")
     results = ic.run_cases(wrapped, preds, fronts=fronts)
